@@ -21,25 +21,28 @@
 (***************************************************************************)
 EXTENDS Integers, Sequences, FiniteSets, TLC
 
-CONSTANTS NE, Await, Buffered, SyncCons, Turn
+CONSTANTS NE, Await, Buffered, SyncCons, Turn,
+          Faults,          \* TRUE: a task may raise on the cluster
+          EarlyTurn        \* TRUE: a failed call passes its turn on without waiting for the calls before it
 
 VARIABLES called, st, taskDone, delivered, busy, emitDone, rc, fired,
           q,     \* Buffered: the buffer's queue between map and gather
           gq,    \* the elements in the order in which gather.update was called for them
-          passed \* the elements whose gather.update has passed the turn on (its emit to the sink has completed)
-vars == <<called, st, taskDone, delivered, busy, emitDone, rc, fired, q, gq, passed>>
+          passed, \* the elements whose gather.update has passed the turn on (its emit to the sink has completed)
+          taskFailed \* the elements whose task raised
+vars == <<called, st, taskDone, delivered, busy, emitDone, rc, fired, q, gq, passed, taskFailed>>
 Elems == 1 .. NE
 
 Init == /\ called = 0 /\ st = [e \in Elems |-> "none"] /\ taskDone = [e \in Elems |-> FALSE]
         /\ delivered = <<>> /\ busy = {} /\ emitDone = [e \in Elems |-> FALSE]
-        /\ rc = [e \in Elems |-> 0] /\ fired = <<>> /\ q = <<>> /\ gq = <<>> /\ passed = {}
+        /\ rc = [e \in Elems |-> 0] /\ fired = <<>> /\ q = <<>> /\ gq = <<>> /\ passed = {} /\ taskFailed = {}
 
 EmitCall(e) ==
     /\ e = called + 1 /\ e <= NE
     /\ Await => \A f \in 1 .. called : emitDone[f]
     /\ called' = e /\ st' = [st EXCEPT ![e] = "scattering"]
     /\ rc' = [rc EXCEPT ![e] = @ + 1]                          \* scatter.update retains
-    /\ UNCHANGED <<taskDone, delivered, busy, emitDone, fired, q, gq, passed>>
+    /\ UNCHANGED <<taskDone, delivered, busy, emitDone, fired, q, gq, passed, taskFailed>>
 
 \* client.scatter finished: the future travels through map (task submitted) into gather.update, which retains and waits
 ScatterDone(e) ==
@@ -49,7 +52,7 @@ ScatterDone(e) ==
             /\ st' = [st EXCEPT ![e] = "queued"] /\ q' = Append(q, e) /\ rc' = rc /\ gq' = gq
        ELSE /\ st' = [st EXCEPT ![e] = "computing"] /\ q' = q /\ gq' = Append(gq, e)
             /\ rc' = [rc EXCEPT ![e] = @ + 1]                 \* gather.update retains
-    /\ UNCHANGED <<called, taskDone, delivered, busy, emitDone, fired, passed>>
+    /\ UNCHANGED <<called, taskDone, delivered, busy, emitDone, fired, passed, taskFailed>>
 
 \* buffer.cb hands the head of its queue to gather.update and waits for it before taking the next one
 HandOver(e) ==
@@ -57,32 +60,51 @@ HandOver(e) ==
     /\ \A f \in Elems : st[f] \notin {"computing", "delivering"}
     /\ q' = Tail(q) /\ st' = [st EXCEPT ![e] = "computing"] /\ gq' = Append(gq, e)
     /\ rc' = [rc EXCEPT ![e] = @ + 1]
-    /\ UNCHANGED <<called, taskDone, delivered, busy, emitDone, fired, passed>>
+    /\ UNCHANGED <<called, taskDone, delivered, busy, emitDone, fired, passed, taskFailed>>
 
 \* the cluster finishes the task(s) of element e -- in any order
 TaskFinish(e) ==
-    /\ st[e] \in {"scattering", "queued", "computing"} /\ ~taskDone[e]
+    /\ st[e] \in {"scattering", "queued", "computing"} /\ ~taskDone[e] /\ e \notin taskFailed
     /\ taskDone' = [taskDone EXCEPT ![e] = TRUE]
-    /\ UNCHANGED <<called, st, delivered, busy, emitDone, rc, fired, q, gq, passed>>
+    /\ UNCHANGED <<called, st, delivered, busy, emitDone, rc, fired, q, gq, passed, taskFailed>>
+
+\* every call waits for the turn of the call made just before it (which has itself waited for its predecessor)
+PrevCall(e) == {gq[i] : i \in {i \in 1 .. Len(gq) : i + 1 <= Len(gq) /\ gq[i + 1] = e}}
+
+\* the task of element e raises on the cluster
+TaskFail(e) ==
+    /\ Faults /\ ~Buffered /\ st[e] \in {"scattering", "computing"} /\ ~taskDone[e] /\ e \notin taskFailed
+    /\ taskFailed' = taskFailed \cup {e}
+    /\ UNCHANGED <<called, st, taskDone, delivered, busy, emitDone, rc, fired, q, gq, passed>>
+
+\* client.gather raises in gather.update: nothing is emitted, the turn is passed on (in order), the exception travels
+\* back through scatter.update to the emitter; neither gather nor scatter releases: the element is never reported done
+GatherFail(e) ==
+    /\ st[e] = "computing" /\ e \in taskFailed
+    /\ (Turn /\ ~EarlyTurn) => \A f \in PrevCall(e) : f \in passed
+    /\ st' = [st EXCEPT ![e] = "failed"] /\ passed' = passed \cup {e}
+    /\ UNCHANGED <<called, taskDone, delivered, busy, emitDone, rc, fired, q, gq, taskFailed>>
+
+EmitRaised(e) == /\ st[e] = "failed" /\ ~emitDone[e] /\ emitDone' = [emitDone EXCEPT ![e] = TRUE]
+                 /\ UNCHANGED <<called, st, taskDone, delivered, busy, rc, fired, q, gq, passed, taskFailed>>
 
 \* client.gather returned and every earlier call has passed its turn: the result is emitted to the sink
-EarlierCalls(e) == {gq[i] : i \in {i \in 1 .. Len(gq) : \E j \in 1 .. Len(gq) : gq[j] = e /\ i < j}}
 GatherDone(e) ==
     /\ st[e] = "computing" /\ taskDone[e]
-    /\ Turn => \A f \in EarlierCalls(e) : f \in passed
+    /\ Turn => \A f \in PrevCall(e) : f \in passed
     /\ delivered' = Append(delivered, e)
     /\ busy' = IF SyncCons THEN busy ELSE busy \cup {e}
     /\ st' = [st EXCEPT ![e] = "delivering"]
-    /\ UNCHANGED <<called, taskDone, emitDone, rc, fired, q, gq, passed>>
+    /\ UNCHANGED <<called, taskDone, emitDone, rc, fired, q, gq, passed, taskFailed>>
 
 ConsumerDone(e) == /\ e \in busy /\ busy' = busy \ {e}
-                   /\ UNCHANGED <<called, st, taskDone, delivered, emitDone, rc, fired, q, gq, passed>>
+                   /\ UNCHANGED <<called, st, taskDone, delivered, emitDone, rc, fired, q, gq, passed, taskFailed>>
 
 \* the sink has finished with the result: gather passes the turn on (and releases; counted in Release) ...
 PassTurn(e) ==
     /\ st[e] = "delivering" /\ e \notin busy /\ e \notin passed
     /\ passed' = passed \cup {e}
-    /\ UNCHANGED <<called, st, taskDone, delivered, busy, emitDone, rc, fired, q, gq>>
+    /\ UNCHANGED <<called, st, taskDone, delivered, busy, emitDone, rc, fired, q, gq, taskFailed>>
 
 \* ... its awaitable completes, scatter releases
 Release(e) ==
@@ -91,33 +113,38 @@ Release(e) ==
     /\ st' = [st EXCEPT ![e] = "done"]
     /\ rc' = [rc EXCEPT ![e] = @ - 2]
     /\ fired' = IF rc[e] - 2 <= 0 THEN Append(fired, e) ELSE fired
-    /\ UNCHANGED <<called, taskDone, delivered, busy, emitDone, q, gq>>
+    /\ UNCHANGED <<called, taskDone, delivered, busy, emitDone, q, gq, taskFailed>>
 
 \* the producer's awaitable: scatter.update returns when everything up to the next buffering node has taken the element
 EmitDone(e) == /\ (IF Buffered THEN st[e] \notin {"none", "scattering"} ELSE st[e] = "done")
                /\ ~emitDone[e] /\ emitDone' = [emitDone EXCEPT ![e] = TRUE]
-               /\ UNCHANGED <<called, st, taskDone, delivered, busy, rc, fired, q, gq, passed>>
+               /\ UNCHANGED <<called, st, taskDone, delivered, busy, rc, fired, q, gq, passed, taskFailed>>
 
 Next == \E e \in Elems : EmitCall(e) \/ ScatterDone(e) \/ HandOver(e) \/ TaskFinish(e) \/ GatherDone(e) \/ ConsumerDone(e) \/ PassTurn(e) \/ Release(e) \/ EmitDone(e)
+                          \/ TaskFail(e) \/ GatherFail(e) \/ EmitRaised(e)
 Spec == Init /\ [][Next]_vars
 FairSpec == Spec /\ \A e \in Elems : WF_vars(EmitCall(e)) /\ WF_vars(ScatterDone(e)) /\ WF_vars(HandOver(e)) /\ WF_vars(TaskFinish(e)) /\ WF_vars(GatherDone(e))
                                      /\ WF_vars(ConsumerDone(e)) /\ WF_vars(PassTurn(e)) /\ WF_vars(Release(e)) /\ WF_vars(EmitDone(e))
+                                     /\ WF_vars(GatherFail(e)) /\ WF_vars(EmitRaised(e))
 
 ----------------------------------------------------------------------------
 \* C20: the same results as the local pipeline: each element exactly once ...
 ExactlyOnce == \A i, j \in 1 .. Len(delivered) : i # j => delivered[i] # delivered[j]
-Quiescent == \A e \in 1 .. called : st[e] = "done"
-Lossless == Quiescent => Len(delivered) = called
+Failed == {e \in Elems : st[e] = "failed"}
+Quiescent == \A e \in 1 .. called : st[e] \in {"done", "failed"}
+Lossless == Quiescent => Len(delivered) + Cardinality(Failed) = called
 \* ... and in the same order, whatever order the cluster finishes tasks in
 \* (guaranteed for producers that await their emits; with fire-and-forget producers not even the scatter
 \* calls are ordered)
 SameOrder == \A i, j \in 1 .. Len(delivered) : i < j => delivered[i] < delivered[j]
 \* whatever the producer does, gather passes results on in the order in which the futures reached it
-CallOrder == \A i \in 1 .. Len(delivered) : delivered[i] = gq[i]
-AllDelivered == <>(Len(delivered) = NE)
+\* (calls whose task failed deliver nothing; the others keep their order)
+CallOrder == LET ok == SelectSeq(gq, LAMBDA e : e \notin taskFailed)
+             IN \A i \in 1 .. Len(delivered) : i <= Len(ok) /\ delivered[i] = ok[i]
+AllDelivered == <>(Len(delivered) + Cardinality(Failed) = NE)
 \* reference counters balanced as in the local pipeline
 CbSafe == \A i \in 1 .. Len(fired) : st[fired[i]] = "done"
-RcBalance == /\ \A e \in Elems : rc[e] = (CASE st[e] \in {"scattering", "queued"} -> 1 [] st[e] \in {"computing", "delivering"} -> 2 [] OTHER -> 0)
+RcBalance == /\ \A e \in Elems : rc[e] = (CASE st[e] \in {"scattering", "queued"} -> 1 [] st[e] \in {"computing", "delivering", "failed"} -> 2 [] OTHER -> 0)
              /\ \A e \in Elems : st[e] = "done" => \E i \in 1 .. Len(fired) : fired[i] = e
              /\ \A e \in Elems : Cardinality({i \in 1 .. Len(fired) : fired[i] = e}) <= 1
 =============================================================================
